@@ -20,7 +20,7 @@ func init() {
 
 func checkC24(c *vk.Ctx) {
 	c.Rule = "random histories with subscribers announcing Topic Alias Maximum 0-3 over 4 topics (outbound aliases), binding publishes that are deferred behind Receive Maximum / refused by Maximum Packet Size / queued while offline, reconnects with queued aliased messages, and publishers binding, rebinding and using inbound aliases 1-3 against a server maximum of 0/2/65535 (incl. unbound and out-of-range aliases): " +
-		"every PUBLISH the broker sends has a non-empty topic or an alias bound earlier on the same connection to that message's topic, alias <= the client's maximum and none when it is 0; inbound publishes with an alias above the server maximum or an unbound alias with empty topic are rejected and not routed; bound aliases resolve to the last binding on the connection. nontrivial = histories with >=1 aliased PUBLISH in either direction"
+		"every PUBLISH the broker sends has a non-empty topic or an alias bound earlier on the same connection to that message's topic, alias <= the client's maximum and none when it is 0; inbound publishes with an alias above the server maximum or an unbound alias with empty topic are rejected and not routed; bound aliases resolve to the last binding on the connection; a probe delivers Topic-Alias-Maximum + 60 distinct topics (maximum 65535 and 7) and then early topics again to one client and checks that every PUBLISH resolves to the topic named in its payload. nontrivial = histories with >=1 aliased PUBLISH in either direction"
 	p := qosProfile()
 	p.Name = "alias"
 	p.SlotIDs = []int{0, 1, 2}
@@ -45,6 +45,69 @@ func checkC24(c *vk.Ctx) {
 	c.MinEvents["inbound_alias_bound"] = 100
 	c.MinEvents["inbound_alias_resolved"] = 50
 	c.MinEvents["outbound_alias_seen"] = 200
+	c24ManyTopics(c)
+}
+
+// c24ManyTopics: a client that allows the full alias range (Topic Alias Maximum 65535) receives more distinct topics
+// than there are aliases, then early topics again. The receiver keeps the alias table the packets imply; every PUBLISH
+// must resolve to the topic named in its payload (the history profile uses maxima 0-3 only).
+func c24ManyTopics(c *vk.Ctx) {
+	for _, tam := range []uint32{65535, 7} {
+		b := eng.NewBroker(eng.Options{Inline: true})
+		sub, rx := dConnect(b, 5, "many", true, rc.Props{{ID: rc.PTopicAliasMax, Num: tam}}, nil)
+		if ca := hasType(rx, rc.CONNACK); ca == nil || ca.Reason != 0 {
+			c.Inconclusive("C24 many-topics probe: CONNECT refused")
+			b.Shutdown()
+			continue
+		}
+		sub.send(subscribePkt(1, "big/#", 0))
+		n := int(tam) + 60
+		table := map[uint32]string{}
+		bad := 0
+		check := func() {
+			for _, rp := range sub.Drain() {
+				if rp.P.Type != rc.PUBLISH {
+					continue
+				}
+				c.Count("many_topics_publishes_checked", 1)
+				topic := rp.P.Topic
+				if ap, ok := rp.P.Props.Get(rc.PTopicAlias); ok {
+					if ap.Num == 0 || ap.Num > tam {
+						c.Violate("C24/alias-out-of-range", map[string]string{"tam": fmt.Sprint(tam)}, fmt.Sprintf("PUBLISH uses topic alias %d, the client's Topic Alias Maximum is %d", ap.Num, tam), nil)
+						bad++
+					}
+					if topic != "" {
+						table[ap.Num] = topic
+					} else {
+						topic = table[ap.Num]
+					}
+				}
+				if want := string(rp.P.Payload); topic != want && bad < 3 {
+					bad++
+					c.Violate("C24/unbound-alias", map[string]string{"mps_limited": "false", "many_topics": "true"},
+						fmt.Sprintf("Topic Alias Maximum %d, %d distinct topics delivered: a message published on %q reaches the receiver as %q (alias %v, topic field %q)", tam, n, want, topic, rp.P.Props.All(rc.PTopicAlias), rp.P.Topic),
+						map[string]any{"topic_alias_maximum": tam, "distinct_topics": n})
+				}
+			}
+		}
+		for i := 0; i < n; i++ {
+			t := fmt.Sprintf("big/t%d", i)
+			_ = b.S.Publish(t, []byte(t), false, 0)
+			if i%2000 == 1999 {
+				b.Quiesce(20 * time.Second)
+				check()
+			}
+		}
+		for i := 0; i < 20; i++ {
+			t := fmt.Sprintf("big/t%d", i)
+			_ = b.S.Publish(t, []byte(t), false, 0)
+		}
+		b.Quiesce(20 * time.Second)
+		check()
+		c.Eval(vk.Hash("c24many", tam), true)
+		b.Shutdown()
+	}
+	c.MinEvents["many_topics_publishes_checked"] = 60000
 }
 
 func checkC25(c *vk.Ctx) {
